@@ -422,6 +422,116 @@ def run(chk) -> None:
     _r05c(chk)
     _r05d(chk)
     _r05e(chk)
+    chk.rule("R05f", "no WhitespaceSegment is built from a text that may be empty: the text is a non-empty constant, or known to be truthy where the segment is built (dominating test, conditional expression, short circuit), or the site is reviewed into R05F_REVIEWED -- LintFix refuses an edit that contains a segment with an empty raw (\"Invalid edit found\"), which surfaces as an 'Unexpected exception' violation")
+    _r05f(chk)
+
+
+# ---- R05f -------------------------------------------------------------------
+# (relative path, qualified function, normalised text argument) -> why the text cannot be empty there
+_ST04_INDENT = (
+    "result of Rule_ST04._get_indentation: the leading whitespace when it is longer than one character, else construct_single_indent(..) * indent_level "
+    "with indent_level = 1, or indent_val + 1 of the last indent meta before the clause -- among the children of a case_expression only the Indent after "
+    "CASE precedes a WHEN/ELSE clause (the Dedent stands before END in every dialect's CaseExpressionSegment), so the level is >= 1 and the unit is a "
+    "validated non-empty config value; no input producing an empty string was found"
+)
+R05F_REVIEWED: Dict[Tuple[str, str, str], str] = {
+    ("src/sqlfluff/rules/structure/ST04.py", "Rule_ST04._nested_end_trailing_comment", "end_indent_str"): _ST04_INDENT,
+    ("src/sqlfluff/rules/structure/ST04.py", "Rule_ST04._rebuild_spacing", "indent_str"): _ST04_INDENT,
+}
+
+
+def _nonempty_const(e) -> bool:
+    return isinstance(e, ast.Constant) and isinstance(e.value, str) and e.value != ""
+
+
+def _nonempty_subject(e, pol):
+    """(subject, True) when the atom says ``subject`` is non-empty: ``x``, ``bool(x)``, ``len(x)``,
+    ``len(x) > 0`` / ``>= 1`` / ``!= 0``, ``x != ""`` taken; ``not x``, ``x == ""``, ``len(x) == 0`` not taken."""
+    if isinstance(e, ast.UnaryOp) and isinstance(e.op, ast.Not):
+        return _nonempty_subject(e.operand, not pol)
+    if isinstance(e, ast.Call) and isinstance(e.func, ast.Name) and e.func.id in ("bool", "len") and len(e.args) == 1 and not e.keywords:
+        return _nonempty_subject(e.args[0], pol)
+    if isinstance(e, ast.Compare) and len(e.ops) == 1:
+        l, op, r = e.left, e.ops[0], e.comparators[0]
+        if isinstance(r, ast.Constant) and r.value == "" and isinstance(op, (ast.NotEq, ast.Eq)):
+            return l, (pol if isinstance(op, ast.NotEq) else not pol)
+        if isinstance(l, ast.Call) and isinstance(l.func, ast.Name) and l.func.id == "len" and len(l.args) == 1 and isinstance(r, ast.Constant) and isinstance(r.value, int):
+            if (isinstance(op, ast.Gt) and r.value == 0) or (isinstance(op, ast.GtE) and r.value == 1) or (isinstance(op, ast.NotEq) and r.value == 0):
+                return l.args[0], pol
+            if isinstance(op, ast.Eq) and r.value == 0:
+                return l.args[0], not pol
+    return e, pol
+
+
+def _r05f(chk) -> None:
+    from ..cfg import cfg_of, origins
+    from ..idioms import conditions_at
+
+    repo = chk.repo
+    n = n_const = n_guard = n_table = 0
+    for pre in ("src/sqlfluff/rules/", "src/sqlfluff/utils/", "src/sqlfluff/core/rules/"):
+        for m in repo.iter_modules(pre):
+            if m.relpath.startswith("src/sqlfluff/utils/testing/") or "WhitespaceSegment" not in m.text:
+                continue
+            for q, f in m.functions():
+                cs = [c for c in calls_in(f) if last_attr(c) == "WhitespaceSegment" and (c.args or kwarg(c, "raw") is not None)]
+                if not cs:
+                    continue
+                cfg = cfg_of(f)
+                rd = cfg.reaching()
+                for c in cs:
+                    a = kwarg(c, "raw") or c.args[0]
+                    n += 1
+                    st = cfg.stmt_of(c)
+                    if _nonempty_const(a):
+                        n_const += 1
+                        continue
+                    if isinstance(a, ast.Name):
+                        os_ = origins(cfg, a, st)
+                        if os_ and all(o.kind == "expr" and _nonempty_const(o.expr) and not o.path for o in os_):
+                            n_const += 1
+                            continue
+                    guarded = False
+                    text = norm(a)
+                    # within the statement: `[W(x)] if x else []`, `x and W(x)`
+                    child, par = c, getattr(c, "_parent", None)
+                    while par is not None and par is not st and not guarded:
+                        if isinstance(par, ast.IfExp) and child is par.body and norm(par.test) == text:
+                            guarded = True
+                        if isinstance(par, ast.BoolOp) and isinstance(par.op, ast.And):
+                            idx = [i for i, v in enumerate(par.values) if v is child]
+                            if idx and any(norm(v) == text for v in par.values[: idx[0]]):
+                                guarded = True
+                        child, par = par, getattr(par, "_parent", None)
+                    # a dominating truthiness test of the same value
+                    if not guarded and st is not None:
+                        for e, pol in conditions_at(cfg, st):
+                            e, pol = _nonempty_subject(e, pol)
+                            if pol and norm(e) == text:
+                                if isinstance(a, ast.Name):
+                                    at_test = cfg.stmt_of(e)
+                                    if at_test is not None and {id(d.node) for d in rd.defs_at(at_test, a.id)} != {id(d.node) for d in rd.defs_at(st, a.id)}:
+                                        continue
+                                guarded = True
+                    if guarded:
+                        n_guard += 1
+                        chk.ok("R05f", f"{m.relpath}::{q}", f"WhitespaceSegment({text}) built where the text is known to be non-empty")
+                        continue
+                    why = R05F_REVIEWED.get((m.relpath, q, text))
+                    if why is not None:
+                        n_table += 1
+                        continue
+                    chk.fail(
+                        "R05f", c,
+                        f"{q} builds WhitespaceSegment({short(a, 40)}) from a text that is not known to be non-empty here: when it is empty the LintFix built with it "
+                        "raises \"Invalid edit found\" and the rule reports an 'Unexpected exception' instead of its result",
+                        detail=f"{q}: WhitespaceSegment({text}) may be empty",
+                    )
+    chk.count("R05f.whitespace_constructions_with_text", n)
+    chk.count("R05f.constant_text", n_const)
+    chk.count("R05f.guarded", n_guard)
+    chk.count("R05f.reviewed", n_table)
+    chk.floor("R05f.whitespace_constructions_with_text", 5)
 
 
 # ---- R05d -------------------------------------------------------------------
@@ -1070,6 +1180,30 @@ LT08 = "src/sqlfluff/rules/layout/LT08.py"
 LT07 = "src/sqlfluff/rules/layout/LT07.py"
 
 VARIANTS = [
+    Variant(
+        "comment-mover-builds-indent-unconditionally", "src/sqlfluff/utils/reflow/reindent.py",
+        "        if current_indent:\n            new_segments += (WhitespaceSegment(current_indent),)\n",
+        "        new_segments += (WhitespaceSegment(current_indent),)\n",
+        "R05f", "_fix_long_line_with_comment", "seeded C05-3: an unindented over-long line with a trailing comment makes LT05 raise",
+    ),
+    Variant(
+        "st04-restores-whitespace-that-was-not-there", "src/sqlfluff/rules/structure/ST04.py",
+        "                if prior_whitespace:\n                    buff.append(WhitespaceSegment(prior_whitespace))\n",
+        "                buff.append(WhitespaceSegment(prior_whitespace))\n",
+        "R05f", "_rebuild_spacing", "the defect repaired by f5517ce: `THEN 2/*c*/ END`",
+    ),
+    Variant(
+        "quiet-indent-guard-in-a-conditional-expression", "src/sqlfluff/utils/reflow/reindent.py",
+        "        if current_indent:\n            new_segments += (WhitespaceSegment(current_indent),)\n",
+        "        new_segments += (WhitespaceSegment(current_indent),) if current_indent else ()\n",
+        "QUIET", None, "R05f: the same guard as a conditional expression",
+    ),
+    Variant(
+        "quiet-indent-guard-through-a-boolean-local", "src/sqlfluff/utils/reflow/reindent.py",
+        "        if current_indent:\n            new_segments += (WhitespaceSegment(current_indent),)\n",
+        "        has_indent = bool(current_indent)\n        if has_indent:\n            new_segments += (WhitespaceSegment(current_indent),)\n",
+        "QUIET", None, "R05f: the truthiness test held in a boolean local",
+    ),
     Variant(
         "lookup-cte-parent-never-pops", "src/sqlfluff/utils/analysis/query.py",
         "self.parent.lookup_cte(name, pop)",
